@@ -88,6 +88,7 @@ def run(ck, F, tier):
     ck.rule("K2", "leave-one-out structure")
     ck.rule("K3", "sibling operator profiles agree (flooding vs layered; float vs 8-bit; the 8 variants of a family)")
     ck.rule("K4", "constants named by the property")
+    ck.rule("K6", "every reduction ranges over exactly the messages of the node being processed (scratch vectors are read only over the prefix just written, zipped with the same message slice)")
     ck.assume("K3 compares independent implementations of the same rule; it cannot see an error made identically in both")
     impls = F.impls_of(TRAIT)
     ck.floor("K1", "impl DecoderArithmetic", len(impls), 24)
@@ -210,6 +211,24 @@ def run(ck, F, tier):
                 # flooding also uses `j != argmin` in the filter_map that enumerates the remaining destinations
                 want_g = 2 if tag == "flooding" else 1
                 ck.inst("K2", "%s:%s" % (ty, tag), len(guards) == want_g and abs_ok, body.span, "fold over j != argmin (%d guards, expected %d), argmin by |value| (%s)" % (len(guards), want_g, abs_ok))
+
+    # ---- K6 -------------------------------------------------------------------------------------------------
+    from .c10 import scratch_discipline
+    from ..decmodel import self_field_uses
+    n6 = 0
+    for im in impls:
+        ty = im["self_ty"].rsplit("::", 1)[-1]
+        adt = F.adts.get(im["self_ty"])
+        scratch = [f["name"] for f in adt["variants"][0]["fields"] if f["ty"].startswith("std::vec::Vec<")] if adt else []
+        for meth in ("send_check_messages", "update_check_messages_and_vars"):
+            bb = F.body("<%s%s as %s>::%s" % (ARI, ty, TRAIT, meth))
+            uses = self_field_uses(bb)
+            for f in scratch:
+                if f in uses:
+                    n6 += 1
+                    ok6, why6 = scratch_discipline(bb, f)
+                    ck.inst("K6", "%s:%s:%s" % (ty, meth, f), ok6, bb.span, why6)
+    ck.floor("K6", "scratch uses in check rules", n6, 6)
 
     # ---- K3 -------------------------------------------------------------------------------------------------
     for ty in types:
